@@ -178,6 +178,20 @@ func (w *World) ctxEnded(c *Call, why string) {
 	w.mu.Unlock()
 }
 
+// syncCtx records the end of the call's context if the context has ended but the (asynchronous)
+// AfterFunc that normally records it has not run yet: what justifies a context error is that the
+// context had ended when the outcome was produced, not which of two goroutines woken by the same
+// deadline got to the event log first.
+func (w *World) syncCtx(c *Call) {
+	if c.ctx != nil && c.ctx.Err() != nil {
+		why := "deadline"
+		if c.CtxKind == "cancel" {
+			why = "cancel"
+		}
+		w.ctxEnded(c, why)
+	}
+}
+
 func (w *World) doCall(m *Mgr, ti, oi int, op *Op) *Call {
 	c := w.newCall(m, ti, oi, op)
 	var cfg *zsvc.Configuration
@@ -218,6 +232,7 @@ func (w *World) doCall(m *Mgr, ti, oi int, op *Op) *Call {
 		}()
 		c.res = invokeStub(c.ctx, cfg, node, c, c.Req, opts)
 	}()
+	w.syncCtx(c)
 	w.mu.Lock()
 	c.ReturnSeq = w.nextSeq()
 	c.ReturnStep = w.step
@@ -249,6 +264,7 @@ func (w *World) doCall(m *Mgr, ti, oi int, op *Op) *Call {
 			c.getsStarted++
 			w.mu.Unlock()
 			r, err := fut.future()
+			w.syncCtx(c)
 			w.mu.Lock()
 			c.Gets = append(c.Gets, getResult{Seq: w.nextSeq(), Ret: r, Err: err})
 			if c.DoneSeq == 0 {
@@ -391,6 +407,7 @@ func (w *World) startObservers(m *Mgr, ti int, c *Call) {
 	// completion watcher: always present
 	simrt.GoNamed(fmt.Sprintf("c%d/t%d/corr%d/done", m.Idx, ti, c.Tok), "observer", func() {
 		<-corr.Done()
+		w.syncCtx(c)
 		w.mu.Lock()
 		inv := w.nextSeq()
 		if c.DoneSeq == 0 {
